@@ -73,7 +73,7 @@ def fuzz(ctx, target, k):
             seeds = d
         r = fuzzrun.run_target(ctx.build, target, runs, ctx.sub_seed("c10", target, k) % 100000 + 1,
                                corpus_seed_dir=seeds, max_len=400 if target in ("fz_strf", "fz_line") else 200,
-                               timeout_s=25, dictionary=DICT, wall_limit=900 if not ctx.thorough else 7200)
+                               timeout_s=25, dictionary=DICT, wall_limit=900 if not ctx.thorough else 2400)
     finally:
         shutil.rmtree(d, ignore_errors=True)
     sub.evaluations += r["executed"]
